@@ -1,11 +1,16 @@
 #!/bin/bash
-# seedtest.sh SEED PROP [check args...]: apply seeded/SEED/patch.diff to /repo, run the check, undo.
+# seedtest.sh SEED PROP [check args...]: run a check against a scratch worktree of /repo
+# with seeded/SEED/patch.diff applied; /repo itself, /verif/evidence and /verif/replay
+# are not touched (VERIF_REPO / VERIF_OUT).
 SEED=$1; PROP=$2; shift 2
-cd /verif
-git -C /repo diff --quiet || { echo "/repo not clean"; exit 2; }
-git -C /repo apply /verif/seeded/$SEED/patch.diff || { echo "apply failed"; exit 2; }
-./check $PROP "$@" > /tmp/seedtest_$SEED.log 2>&1; rc=$?
-git -C /repo checkout -- .
-echo "seed=$SEED prop=$PROP rc=$rc violations=$(grep -c '^VIOLATION' /tmp/seedtest_$SEED.log)"
-grep "^VIOLATION" /tmp/seedtest_$SEED.log | head -5
+W=/var/tmp/seedwt_$SEED; O=/var/tmp/seedout_$SEED
+git -C /repo worktree remove --force $W 2>/dev/null; rm -rf $W $O
+git -C /repo worktree add -q --detach $W HEAD || exit 2
+git -C $W apply /verif/seeded/$SEED/patch.diff || { echo "seed=$SEED apply failed"; git -C /repo worktree remove --force $W; exit 2; }
+mkdir -p $O
+(cd /verif && VERIF_REPO=$W VERIF_OUT=$O ./check $PROP "$@" > $O/log.txt 2>&1); rc=$?
+echo "seed=$SEED prop=$PROP rc=$rc violations=$(grep -c '^VIOLATION' $O/log.txt)"
+grep "^VIOLATION" $O/log.txt | head -5
+cp $O/log.txt /var/tmp/seedtest_$SEED.log
+git -C /repo worktree remove --force $W; rm -rf $O
 exit 0
